@@ -200,6 +200,7 @@ def pick_op(rng, spec, ids, selections):
         return {"kind": "call"}
     if any(fs.get("tag") in ids for fs in spec["fns"].values()):
         return {"kind": "call"}  # a tag spelled like a node id: the id strings used below would denote the tagged nodes
+    nested = bool(spec.get("nest"))
     g = S.site_graph(spec)
     n = len(ids)
     op = {"kind": "executor"}
@@ -207,7 +208,9 @@ def pick_op(rng, spec, ids, selections):
              and not spec["nodes"][i]["kwargs"] and spec["nodes"][i]["active"] is None]
     sel = set(range(n))
     r = rng.random()
-    if roots and r < 0.3:
+    if roots and r < 0.3 and not nested:
+        # (root selections are not combined with nested blocks: the inner DAG's argument stubs are nodes of their own, a DAG
+        # argument reaches an inner node only through them, and what a root selection does to them is C12's question, not the schedule's)
         rs = rng.sample(roots, rng.randint(1, len(roots)))
         op["root_nodes"] = [ids[i] for i in rs]
         sel = S.closure(spec, rs, None, None)
@@ -250,7 +253,7 @@ def reconfigure(rng, sp, d, ids, mc_max):
         if rng.random() < 0.6:
             c["is_sequential"] = rng.random() < 0.6
         if not c or rng.random() < 0.5:
-            c["priority"] = rng.choice([-3, 0, 2, 6, 9])
+            c["priority"] = rng.choice([0, 2, 6, 9] if sp.get("nest") else [-3, 0, 2, 6, 9])
         for fn, fs in sp["fns"].items():
             if fs.get("tag") == t:
                 fs.update(c)
@@ -261,7 +264,7 @@ def reconfigure(rng, sp, d, ids, mc_max):
             continue
         c = {}
         if rng.random() < 0.75:
-            c["priority"] = rng.choice([-3, 0, 1, 2, 4, 7, 9])
+            c["priority"] = rng.choice([0, 1, 2, 4, 7, 9] if sp.get("nest") else [-3, 0, 1, 2, 4, 7, 9])
             sp["fns"][nd["fn"]]["priority"] = c["priority"]
         if rng.random() < 0.25:
             c["is_sequential"] = rng.random() < 0.5
@@ -358,6 +361,8 @@ def job_sched(j):
             col.inconclusive.append("build failed for generated shape: %r" % (e,))
             continue
         ids = S.node_ids(sp)
+        if sp.get("nest"):
+            col.counters["shapes_with_a_block_written_as_inner_dag"] += 1
         if set(ids) - set(d.exec_nodes):
             col.inconclusive.append("predicted node ids not found in DAG: %s" % sorted(set(ids) - set(d.exec_nodes))[:3])
             continue
